@@ -314,7 +314,7 @@ def fam_lowers_observed(ctx):
     names, table, ranks, notes = lowers_table()
     idx_of = {n: i for i, n in enumerate(names)}
     store = collections.Counter()
-    progs, idx = _program_slice(ctx, 220)
+    progs, idx = _program_slice(ctx, 150)
     nprog = 0
     with observed_lowers(store):
         for i in idx:
@@ -329,6 +329,8 @@ def fam_lowers_observed(ctx):
         from harness.props import c14
 
         for name, fn in c14.real_queries():
+            if ctx.quick and "/n3" not in name:
+                continue
             try:
                 fn().expr.optimize()
             except Exception:  # noqa: BLE001
@@ -353,27 +355,28 @@ def fam_lowers_observed(ctx):
 
 
 def fam_fusion_passes(ctx):
-    """T2/T3: the number of successful fusion passes of the real loop is the model's and is below the
-    measure of C19_fusion_terminates (reachable blockwise nodes)."""
-    f = Family("fusion_passes[real optimize_blockwise_fusion pass count <= measure]")
+    """T2/T3: the measure of C19_fusion_terminates is the number of reachable valid blockwise expressions
+    of the real plan, it strictly decreases with every real pass, so the real pass count is below it."""
+    f = Family("fusion_passes[real optimize_blockwise_fusion: measure decreases per pass, pass count <= measure]")
     from harness.props import c14
 
     reqs, inputs, want = [], [], []
     for label, expr in c14._real_plans(ctx)[: (250 if ctx.quick else 100000)]:
         try:
-            out, calls = c14._fuse_real(expr, (0, False))
+            out, calls = c14._fuse_real(expr)
         except Exception:  # noqa: BLE001
             continue
-        p0 = c14.Plan(expr)
-        reqs.append(f"fusion passes dag={p0.text} root={p0.root} pol=0 rev=0")
-        want.append(f"N {len(calls)}")
-        inputs.append({"query": label, "what": "passes"})
-        m = c14._count_blockwise(expr)
-        reqs.append(f"fusion measure dag={p0.text} root={p0.root}")
-        want.append(str(m))
-        inputs.append({"query": label, "what": "measure"})
-        if len(calls) > m:
-            f.disagreements.append({"input": label, "code": f"{len(calls)} passes", "model": f"measure {m}"})
+        seq = [before for before, _ in calls] + [out]
+        ms = []
+        for e in seq:
+            p = c14.Plan(e)
+            m = c14._count_blockwise(e)
+            ms.append(m)
+            reqs.append(f"fusion measure dag={p.text} root={p.root}")
+            want.append(str(m))
+            inputs.append({"query": label, "what": "measure"})
+        if any(b >= a for a, b in zip(ms, ms[1:])) or len(calls) > ms[0]:
+            f.disagreements.append({"input": label, "code": f"measures along the passes {ms}", "model": "strictly decreasing"})
     model = drive(reqs)
     f.compare(inputs, want, model)
     return f
@@ -506,29 +509,12 @@ def run_program_case(case):
     return None, stats
 
 
-def stable_partgetter_names():
-    """harness artifact: e2e._PartGetter instances have no __name__, so dask labels a FromMap with str(func),
-    which embeds the object's address and differs between processes; give the instances a name."""
-    if getattr(e2e._PartGetter, "_c19_named", False):
-        return
-    orig = e2e._PartGetter.__init__
-
-    def __init__(self, parts):
-        orig(self, parts)
-        self.__name__ = "partgetter"
-
-    e2e._PartGetter.__init__ = __init__
-    e2e._PartGetter._c19_named = True
-
-
 _CHILD = r"""
 import sys, json
-sys.path.insert(0, {root!r})
+sys.path.append({root!r})
 import warnings; warnings.filterwarnings("ignore")
 import dask; dask.config.set(scheduler="sync")
 from harness import programs
-from harness.props import c19
-c19.stable_partgetter_names()
 cases = json.loads(sys.stdin.read())
 progs = {{p.name: p for p in programs.valid_programs(2)}}
 out = {{}}
@@ -550,21 +536,36 @@ print(json.dumps(out))
 """
 
 
-def names_in_fresh_process(cases, hashseed):
+def _spawn(cases, hashseed):
     env = dict(os.environ)
     env["PYTHONHASHSEED"] = str(hashseed)
-    env["PYTHONPATH"] = str(ROOT)
-    p = subprocess.run([sys.executable, "-W", "ignore", "-c", _CHILD.format(root=str(ROOT))], input=json.dumps(cases),
-                       capture_output=True, text=True, env=env, timeout=1200)
-    if p.returncode != 0:
-        raise RuntimeError(f"child failed: {p.stderr[-400:]}")
-    return json.loads(p.stdout.strip().splitlines()[-1])
+    # keep the parent's PYTHONPATH (a DX_REPO scratch copy of dask-expr comes first there)
+    env["PYTHONPATH"] = os.pathsep.join([p for p in [os.environ.get("PYTHONPATH", ""), str(ROOT)] if p])
+    p = subprocess.Popen([sys.executable, "-W", "ignore", "-c", _CHILD.format(root=str(ROOT))], stdin=subprocess.PIPE,
+                         stdout=subprocess.PIPE, stderr=subprocess.PIPE, text=True, env=env)
+    p.stdin.write(json.dumps(cases))
+    p.stdin.close()
+    return p
+
+
+def names_in_fresh_processes(cases, seeds):
+    """the children run concurrently"""
+    procs = [_spawn(cases, s) for s in seeds]
+    outs = []
+    for p in procs:
+        out = p.stdout.read()
+        err = p.stderr.read()
+        p.wait(timeout=1800)
+        if p.returncode != 0:
+            raise RuntimeError(f"child failed: {err[-400:]}")
+        outs.append(json.loads(out.strip().splitlines()[-1]))
+    return outs
 
 
 def cross_process_failures(cases, seeds=(1, 2)):
     """names of the same query in fresh interpreters with different PYTHONHASHSEED:
     -> ([(case, stage, message)], number of queries compared)"""
-    runs = [names_in_fresh_process(cases, s) for s in seeds]
+    runs = names_in_fresh_processes(cases, seeds)
     fails = []
     compared = 0
     for c in cases:
@@ -592,7 +593,7 @@ def run_case(case):
 
 
 def _cases(ctx, broken):
-    progs, idx = _program_slice(ctx, 200)
+    progs, idx = _program_slice(ctx, 140)
     layouts = [([0, 3, 6, 8], [0, 2, 6]), ([0, 8], [0, 6]), ([0, 2, 4, 6, 8], [0, 2, 4, 6])]
     cases = []
     for j, i in enumerate(idx):
@@ -606,7 +607,6 @@ def _cases(ctx, broken):
 
 def support(ctx, broken):
     sup = Support()
-    stable_partgetter_names()
     cases = _cases(ctx, broken)
     hist = {k: collections.Counter() for k in BUDGET}
     same_twice = collections.Counter()
@@ -630,7 +630,7 @@ def support(ctx, broken):
     # cross-process names (one batch per seed): a slice of the programs plus the fusion corpus
     from harness.props import c14
 
-    xcases = [c for c in cases if c["cutsL"] == [0, 3, 6, 8]][: (60 if ctx.quick else 100000)]
+    xcases = [c for c in cases if c["cutsL"] == [0, 3, 6, 8]][: (50 if ctx.quick else 100000)]
     xcases += [{"kind": "query", "query": name} for name, _ in c14.real_queries() if "/n2/" in name or not ctx.quick]
     try:
         fails, n = cross_process_failures(xcases)
